@@ -279,8 +279,10 @@ func judge(sc *scenario, res *result) *verdict {
 	// ---- rate limits -------------------------------------------------------------
 	// accepted = delivered to the handler and not answered with E_REQUEST_REJECTED. A
 	// client that tore its stream down on its own may have made the rejection
-	// undeliverable: such a request counts only with positive evidence that it got
-	// past the limiter (the server read from or wrote to the stream).
+	// undeliverable (the server writes the length prefix and the body separately, so
+	// even half a message can be on record): such a request counts only with positive
+	// evidence that it got past the limiter (the server read from the stream or wrote
+	// a complete message other than a rejection).
 	var all []time.Duration
 	perPeer := map[peer.ID][]time.Duration{}
 	var dd []time.Duration
@@ -288,7 +290,7 @@ func judge(sc *scenario, res *result) *verdict {
 		if r.launched < 0 {
 			continue
 		}
-		if rv := views[i]; !rv.rejected && (!r.aborted || r.srvEnd.BytesRead.Load() > 0 || len(r.wlog) > 0) {
+		if rv := views[i]; !rv.rejected && (!r.aborted || r.srvEnd.BytesRead.Load() > 0 || len(rv.msgs) > 0) {
 			all = append(all, r.launched)
 			perPeer[peerOf(r)] = append(perPeer[peerOf(r)], r.launched)
 		}
@@ -297,14 +299,25 @@ func judge(sc *scenario, res *result) *verdict {
 		}
 	}
 	L := sc.Limits
+	dump := func() string {
+		out := ""
+		for i, r := range w.reqs {
+			if r.launched < 0 {
+				continue
+			}
+			out += fmt.Sprintf("\n      req %d peer %d at %v (%s, body %s): rejected=%v aborted=%v serverRead=%d serverWrote=%x done@%v",
+				r.spec.ID, r.spec.Peer, r.launched, r.spec.Profile, bodyNames[r.spec.Kind], views[i].rejected, r.aborted, r.srvEnd.BytesRead.Load(), r.wlog, r.doneAt)
+		}
+		return out
+	}
 	if m := slidingMax(all); m > L.RPM {
-		v.fail("global limit: %d requests accepted within one minute, limit %d (accept instants %v)", m, L.RPM, all)
+		v.fail("global limit: %d requests accepted within one minute, limit %d (accept instants %v)%s", m, L.RPM, all, dump())
 	} else if m == L.RPM && m > 0 {
 		v.labels["full:rpm"] = true
 	}
 	for p, ts := range perPeer {
 		if m := slidingMax(ts); m > L.PerPeer {
-			v.fail("per-peer limit: %d requests of peer %s accepted within one minute, limit %d (accept instants %v)", m, p, L.PerPeer, ts)
+			v.fail("per-peer limit: %d requests of peer %s accepted within one minute, limit %d (accept instants %v)%s", m, p, L.PerPeer, ts, dump())
 		} else if m == L.PerPeer && m > 0 {
 			v.labels["full:perPeer"] = true
 		}
